@@ -27,6 +27,7 @@ type Obligation struct {
 	Expect string   // "unsat" normally; "sat" for covers
 	Params []string // names of SMT constants to read back from a model
 	Block  int      // basic block the obligation is checked in (-1: needs the whole function)
+	Via    int      // >= 0: only the paths entering Block through this predecessor (the guard says so too)
 }
 
 type Ptr struct {
@@ -116,6 +117,13 @@ func (fg *FuncGen) seg() *strings.Builder {
 	return b
 }
 
+func (fg *FuncGen) emitTo(seg int, format string, a ...interface{}) {
+	save := fg.segIdx
+	fg.segIdx = seg
+	fg.emit(format, a...)
+	fg.segIdx = save
+}
+
 func (fg *FuncGen) emit(format string, a ...interface{}) {
 	b := fg.seg()
 	fmt.Fprintf(b, format, a...)
@@ -124,7 +132,10 @@ func (fg *FuncGen) emit(format string, a ...interface{}) {
 
 // Script returns the part of the function's encoding that an obligation in block blk depends on:
 // the prologue and every block from which blk is reachable in the acyclic control-flow graph.
-func (fg *FuncGen) Script(blk int) string {
+func (fg *FuncGen) Script(blk int) string { return fg.ScriptVia(blk, -1) }
+
+// ScriptVia: like Script, but when via >= 0 only the paths that enter blk through predecessor via.
+func (fg *FuncGen) ScriptVia(blk, via int) string {
 	var out strings.Builder
 	if s := fg.segs[-1]; s != nil {
 		out.WriteString(s.String())
@@ -147,7 +158,12 @@ func (fg *FuncGen) Script(blk int) string {
 				}
 			}
 		}
-		visit(fg.fn.Blocks[blk])
+		if via >= 0 {
+			need[blk] = true
+			visit(fg.fn.Blocks[via])
+		} else {
+			visit(fg.fn.Blocks[blk])
+		}
 	}
 	for _, b := range fg.order {
 		if need != nil && !need[b.Index] {
@@ -202,7 +218,7 @@ func (fg *FuncGen) obl(kind, detail string, pos token.Pos, tags []string, goal, 
 			name = fmt.Sprintf("%s#%d", name, n)
 		}
 	}
-	o := &Obligation{Name: name, Kind: kind, Func: fg.key, Tags: tags, Guard: fg.curReach, Goal: goal, Pos: fg.g.pos(pos), Text: text, Expect: "unsat", Params: fg.paramConsts, Block: fg.segIdx}
+	o := &Obligation{Name: name, Kind: kind, Func: fg.key, Tags: tags, Guard: fg.curReach, Goal: goal, Pos: fg.g.pos(pos), Text: text, Expect: "unsat", Params: fg.paramConsts, Block: fg.segIdx, Via: -1}
 	fg.obls = append(fg.obls, o)
 	return o
 }
@@ -834,13 +850,14 @@ func (fg *FuncGen) mergeStates(b *ssa.BasicBlock, preds []*ssa.BasicBlock) State
 			st[f] = first
 			continue
 		}
-		term := fg.famIn(fg.stOut[preds[len(preds)-1]], f)
-		for i := len(preds) - 2; i >= 0; i-- {
-			term = fmt.Sprintf("(ite %s %s %s)", fg.edgeReach(preds[i], b), fg.famIn(fg.stOut[preds[i]], f), term)
-		}
 		fg.ver[f]++
 		sym := fmt.Sprintf("%s!%d", f, fg.ver[f])
-		fg.emitDef("%s", "%s", "%s", sym, fg.g.families[f], term)
+		// merged value: declared in the prologue, constrained per incoming edge in the predecessor's
+		// segment, so that a slice through one predecessor does not need the others
+		fg.emitTo(-1, "(declare-const %s %s)", sym, fg.g.families[f])
+		for _, p := range preds {
+			fg.emitTo(p.Index, "(assert (=> %s (= %s %s)))", fg.edgeReach(p, b), sym, fg.famIn(fg.stOut[p], f))
+		}
 		st[f] = sym
 	}
 	return st
@@ -863,7 +880,8 @@ func (fg *FuncGen) block(b *ssa.BasicBlock) {
 	}
 	rname := fmt.Sprintf("reach_%d", b.Index)
 	if b.Index == 0 {
-		fg.emitDef("%s", "Bool", "true", rname)
+		fg.emitTo(-1, "(declare-const %s Bool)", rname)
+		fg.emit("(assert (= %s true))", rname)
 		fg.reach[b] = rname
 		fg.curReach = rname
 		fg.st = State{}
@@ -886,7 +904,8 @@ func (fg *FuncGen) block(b *ssa.BasicBlock) {
 		if li := fg.loops[b]; li != nil {
 			fg.loopHead(li, fwd, in, rname)
 		} else {
-			fg.emitDef("%s", "Bool", "%s", rname, in)
+			fg.emitTo(-1, "(declare-const %s Bool)", rname)
+			fg.emit("(assert (= %s %s))", rname, in)
 			fg.reach[b] = rname
 			fg.curReach = rname
 			// phis
@@ -926,11 +945,17 @@ func (fg *FuncGen) definePhi(phi *ssa.Phi, b *ssa.BasicBlock, fwd []*ssa.BasicBl
 		fg.define(phi, fg.g.Zero(phi.Type()))
 		return
 	}
-	term := fg.valueOf(fg.phiEdgeValue(phi, b, fwd[len(fwd)-1])).S
-	for i := len(fwd) - 2; i >= 0; i-- {
-		term = fmt.Sprintf("(ite %s %s %s)", fg.edgeReach(fwd[i], b), fg.valueOf(fg.phiEdgeValue(phi, b, fwd[i])).S, term)
+	if len(fwd) == 1 {
+		fg.define(phi, fg.valueOf(fg.phiEdgeValue(phi, b, fwd[0])).S)
+		return
 	}
-	fg.define(phi, term)
+	name := "v_" + phi.Name()
+	srt := fg.g.SortOf(phi.Type())
+	fg.emitTo(-1, "(declare-const %s %s)", name, srt)
+	fg.val[phi] = []TTerm{{S: name, Sort: srt, T: phi.Type()}}
+	for _, p := range fwd {
+		fg.emitTo(p.Index, "(assert (=> %s (= %s %s)))", fg.edgeReach(p, b), name, fg.valueOf(fg.phiEdgeValue(phi, b, p)).S)
+	}
 }
 
 // modifiedFamilies scans a loop body for the heap families it may change.
@@ -1004,7 +1029,7 @@ func (fg *FuncGen) loopHead(li *loopInfo, fwd []*ssa.BasicBlock, in string, rnam
 		}
 	}
 	// havoc
-	fg.emit("(declare-const %s Bool)", rname)
+	fg.emitTo(-1, "(declare-const %s Bool)", rname)
 	fg.emit("(assert (=> %s %s))", rname, li.initReach)
 	fg.reach[b] = rname
 	fg.curReach = rname
@@ -1128,6 +1153,8 @@ func (fg *FuncGen) finishLoops() {
 			}
 			fg.curReach = fg.edgeReach(p, b)
 			fg.segIdx = p.Index
+			first := len(fg.obls)
+			defer func(first int, p *ssa.BasicBlock, guard string) { fg.splitByPred(first, p, guard) }(first, p, fg.curReach)
 			vals := map[*ssa.Phi]string{}
 			for _, instr := range b.Instrs {
 				phi, ok := instr.(*ssa.Phi)
@@ -1527,4 +1554,36 @@ func (fg *FuncGen) logName(name string, st State) (TTerm, bool) {
 		}
 	}
 	return TTerm{}, false
+}
+
+// splitByPred replaces the obligations obls[first:] generated in block p (a block with many
+// predecessors, e.g. the latch of a big switch inside a loop) by one copy per predecessor of p:
+// reach_p is the disjunction of the incoming edges, so the conjunction of the copies is the original.
+func (fg *FuncGen) splitByPred(first int, p *ssa.BasicBlock, guard string) {
+	var preds []*ssa.BasicBlock
+	for _, q := range p.Preds {
+		if !fg.isBackEdge(q, p) {
+			if _, ok := fg.reach[q]; ok {
+				preds = append(preds, q)
+			}
+		}
+	}
+	if len(preds) < 4 || fg.loops[p] != nil || first >= len(fg.obls) {
+		return
+	}
+	orig := append([]*Obligation{}, fg.obls[first:]...)
+	fg.obls = fg.obls[:first]
+	for _, o := range orig {
+		if o.Block != p.Index {
+			fg.obls = append(fg.obls, o)
+			continue
+		}
+		for k, q := range preds {
+			c := *o
+			c.Name = fmt.Sprintf("%s~%d", o.Name, k+1)
+			c.Guard = "(and " + fg.edgeReach(q, p) + " " + o.Guard + ")"
+			c.Via = q.Index
+			fg.obls = append(fg.obls, &c)
+		}
+	}
 }
